@@ -108,18 +108,21 @@ def render(markup: str, style: Union[str, Style] = "", emoji: bool = True) -> Te
     append = text.append
     normalize = Style.normalize
 
-    style_stack: List[Tuple[int, Tag]] = []
+    # (index of the tag's slot in spans, offset where the tag was opened, tag)
+    style_stack: List[Tuple[int, int, Tag]] = []
     pop = style_stack.pop
 
-    spans: List[Span] = []
-    append_span = spans.append
+    # One slot per opening tag, in the order the tags were opened, filled in when the
+    # tag is closed. Text.render applies spans in list order, so a tag opened later
+    # takes precedence over one opened earlier.
+    spans: List[Optional[Span]] = []
 
     _Span = Span
     _Tag = Tag
 
-    def pop_style(style_name: str) -> Tuple[int, Tag]:
+    def pop_style(style_name: str) -> Tuple[int, int, Tag]:
         """Pop tag matching given style name."""
-        for index, (_, tag) in enumerate(reversed(style_stack), 1):
+        for index, (_, _, tag) in enumerate(reversed(style_stack), 1):
             if tag.name == style_name:
                 return pop(-index)
         raise KeyError(style_name)
@@ -133,30 +136,31 @@ def render(markup: str, style: Union[str, Style] = "", emoji: bool = True) -> Te
                 if style_name:  # explicit close
                     style_name = normalize(style_name)
                     try:
-                        start, open_tag = pop_style(style_name)
+                        slot, start, open_tag = pop_style(style_name)
                     except KeyError:
                         raise MarkupError(
                             f"closing tag '{tag.markup}' at position {position} doesn't match any open tag"
                         ) from None
                 else:  # implicit close
                     try:
-                        start, open_tag = pop()
+                        slot, start, open_tag = pop()
                     except IndexError:
                         raise MarkupError(
                             f"closing tag '[/]' at position {position} has nothing to close"
                         ) from None
 
-                append_span(_Span(start, len(text), str(open_tag)))
+                spans[slot] = _Span(start, len(text), str(open_tag))
             else:  # Opening tag
                 normalized_tag = _Tag(normalize(tag.name), tag.parameters)
-                style_stack.append((len(text), normalized_tag))
+                style_stack.append((len(spans), len(text), normalized_tag))
+                spans.append(None)
 
     text_length = len(text)
     while style_stack:
-        start, tag = style_stack.pop()
-        append_span(_Span(start, text_length, str(tag)))
+        slot, start, tag = style_stack.pop()
+        spans[slot] = _Span(start, text_length, str(tag))
 
-    text.spans = sorted(spans)
+    text.spans = [span for span in spans if span is not None]
     return text
 
 
